@@ -179,7 +179,8 @@ class C07(Check):
     assumptions = ["an over-read that stays inside mapped memory which is neither a guard page nor a canary byte that changes is not observed "
                    "(reads of canary bytes are invisible; only writes and page faults are) -- DESIGN section 0",
                    "the kernel families exercised on owning tensors are matmul (lazy into a placed destination; every shape of the C01 plan, i.e. every dispatch "
-                   "route of MatmulDesign on every ISA), matrix-vector and transpose; "
+                   "route of MatmulDesign on every ISA), the triangular product (half of the C17 plan: every tag pair and clip class), matrix-vector and "
+                   "transpose (every 2-D shape of the C14 plan); "
                    "the footprint of views, einsum and linalg kernels is covered only through the values/frames of their own checks",
                    "heap calls are counted at the malloc-family level of glibc (operator new goes through malloc)"]
 
